@@ -261,10 +261,14 @@ fn run_c04(args: &Args) -> Report {
     let t0 = Instant::now();
     let mut n_w2 = 0u64;
     while t0.elapsed().as_secs_f64() < args.budget_s {
+        // one case in 600 is a LARGE module (hundreds of definitions, thousands of calls,
+        // operators and field accesses in total): whatever the parser counts per module
+        // rather than per nesting path shows only there
+        let large = r.chance(1, 600);
         let cfg = GenCfg {
-            modules: r.range(1, 3),
+            modules: if large { 1 } else { r.range(1, 3) },
             max_items: r.range(3, 9),
-            max_depth: r.range(1, 4),
+            max_depth: if large { 2 } else { r.range(1, 4) },
             holes: false,
             non_core: true,
             trivia: if r.chance(3, 4) { Trivia::Wild } else { Trivia::Plain },
@@ -272,7 +276,23 @@ fn run_c04(args: &Args) -> Report {
         };
         let Some(case_seed) = args.next_case(&mut r) else { break };
         let mut cr = Rng::new(case_seed);
-        let ws = gen::generate(&mut cr, &cfg);
+        let mut ws = gen::generate(&mut cr, &cfg);
+        if large {
+            // the generator's name pools are small: a large module is the definitions of 250-500
+            // generated modules in one file (equal names are not the parser's business)
+            let mut items = std::mem::take(&mut ws.modules[0].items);
+            for _ in 0..cr.range(250, 500) {
+                let small = GenCfg { modules: 1, max_items: cr.range(3, 9), max_depth: 2, ..cfg.clone() };
+                let mut more = gen::generate(&mut cr, &small);
+                items.append(&mut more.modules[0].items);
+            }
+            ws.modules.truncate(1);
+            ws.modules[0].items = items;
+            let printed = print_module(&ws.modules[0], Some(&mut cr), cfg.trivia, cfg.non_ascii);
+            ws.printed = vec![printed];
+            rep.count("cases[large modules: the definitions of 250-500 generated modules in one file]", 1);
+            rep.count("large_module_bytes", ws.printed[0].text.len() as u64);
+        }
         for (mi, m) in ws.modules.iter().enumerate() {
             let want = sexp_module(m);
             let text = &ws.printed[mi].text;
